@@ -171,6 +171,9 @@ class Evolver:
             if k == "msg":
                 # bias towards deep and towards non-last positions
                 m, depth = r.choice(sorted(ext_msgs, key=lambda x: -x[1])[: max(1, len(ext_msgs) // 2 + 1)]) if r.chance(0.5) else r.choice(ext_msgs)
+                reserved = [x for x in ext_msgs if not x[0].fields]
+                if reserved and r.chance(0.6):
+                    m, depth = r.choice(reserved)  # a reserved (still empty) message gets its first fields
                 target = m
                 if self.grow_message(m, depth, done):
                     pass
